@@ -6,6 +6,7 @@ from . import common  # noqa: F401  (puts /repo on sys.path)
 from ECAgent.Core import Model, System, SystemNotFoundError, ModelCompleteError
 
 FOREVER = 999999
+ALIAS = [False]      # drift runner: call the deprecated camelCase aliases instead of their replacements
 
 
 def _end_to_py(e):
@@ -95,7 +96,7 @@ class SchedWorld:
         exc = None
         t = self._t()
         try:
-            self.model.systems.add_system(inst)
+            (self.model.systems.addSystem if ALIAS[0] else self.model.systems.add_system)(inst)
         except Exception as e:  # noqa: BLE001
             exc = e
         self.events.append({"op": "add_system", "obj": list(obj), "prio": prio, "start": start, "end": end,
@@ -108,7 +109,7 @@ class SchedWorld:
             if via is not None:
                 via.clean_up()
             else:
-                self.model.systems.remove_system(sid)
+                (self.model.systems.removeSystem if ALIAS[0] else self.model.systems.remove_system)(sid)
         except Exception as e:  # noqa: BLE001
             exc = e
         self.events.append({"op": "remove_system", "id": sid, "t": t, "out": outcome(exc), "obs": self.obs()})
@@ -129,7 +130,7 @@ class SchedWorld:
             if via == "execute":
                 self.model.execute(n) if n != 1 else self.model.execute()
             elif via == "execute_systems":
-                self.model.systems.execute_systems()
+                (self.model.systems.executeSystems if ALIAS[0] else self.model.systems.execute_systems)()
             elif via == "throw":
                 self.model.systems.execute_systems(throw_error=True)
             else:
@@ -137,6 +138,17 @@ class SchedWorld:
         except Exception as e:  # noqa: BLE001
             exc = e
         self.events.append({"op": "exec_end", "throw": via == "throw", "out": outcome(exc), "obs": self.obs()})
+
+    def lookup(self, sid, strict):
+        exc = None
+        res = ["None", 0]
+        try:
+            r = self.model.systems[(sid, True)] if strict else self.model.systems[sid]
+            if r is not None:
+                res = [sid, next((ser for (oid, ser), inst in self.objects.items() if inst is r), -1)]
+        except Exception as e:  # noqa: BLE001
+            exc = e
+        self.events.append({"op": "lookup_system", "id": sid, "strict": bool(strict), "res": res, "out": outcome(exc)})
 
     BAD_N = {"float": 1.0, "float2": 2.5, "str": "1", "none": None, "zero": 0, "neg": -1, "neg2": -3}
 
@@ -176,6 +188,8 @@ def run_program(prog):
             w.execute(op[1], op[2])
         elif k == "reject":
             w.exec_reject(op[1])
+        elif k == "lookup":
+            w.lookup(op[1], op[2])
         else:
             raise AssertionError(op)
     return w.events
